@@ -189,5 +189,162 @@ def confirm_identity(formula, profile):
     bad = r[0] != 'ok' or got != exp or r2[0] != 'ok' or got2 != exp
     return bad, 'render(parse(%r)) -> %s %r; Cell::set_formula+set_coordinate(same) -> %s %r; expected %r' % (formula, r[0], got if r[0] == 'ok' else r[1], r2[0], got2 if r2[0] == 'ok' else r2[1], exp)
 
+from harness import fskel
+from harness.fskel import Slot
+QUAL_RE = re.compile(r"('(?:[^']|'')*'|[A-Za-z0-9_.]+)!$")
+def expected_pieces(ctx, f, newvals, dead):
+    """expected output variants (list of char lists): slots printed from newvals; a token in `dead` becomes #REF! (with or without its qualifier)"""
+    ps = f.sk.pieces; variants = [[]]
+    toks = f.tokens(); tok_of = {}
+    for t in toks:
+        for sl in t: tok_of[id(sl)] = t
+    i = 0
+    while i < len(ps):
+        p = ps[i]
+        if isinstance(p, str):
+            nxt = ps[i + 1] if i + 1 < len(ps) else None
+            if isinstance(nxt, Slot) and id(tok_of[id(nxt)]) in dead and QUAL_RE.search(p):
+                q = QUAL_RE.search(p).group(0)
+                variants = [v + [ord(ch) for ch in p] for v in variants] + [v + [ord(ch) for ch in p[:-len(q)]] for v in variants]
+            else: variants = [v + [ord(ch) for ch in p] for v in variants]
+            i += 1; continue
+        t = tok_of[id(p)]
+        span = 1 if len(t) == 1 else 3
+        if id(t) in dead: add = [ord(ch) for ch in '#REF!']
+        else:
+            add = []
+            for k, sl in enumerate(t):
+                if k: add.append(58)
+                c, r, lc, lr = newvals[sl.idx]
+                add += sym_coord(ctx, c, r, lc, lr, 'e%d' % sl.idx)
+        variants = [v + add for v in variants]
+        i += span
+    return variants
+def any_eq(out, variants):
+    cs = [chars_eq(out, v) for v in variants]
+    if any(c is True for c in cs): return True
+    cs = [c for c in cs if c is not False]
+    return z3.Or(*cs) if cs else False
+
+CELL = 'structs::cell::Cell::'
+class Translate(Harness):
+    name = 'translate'; property_id = 'C09'
+    entry = [CELL + 'set_formula', CELL + 'set_coordinate', FML + 'adjustment_formula_coordinate']
+    classes = {
+        'beyond-grid-max': 'a reference pushed beyond column XFD / row 1048576 is printed as an out-of-grid coordinate instead of #REF! (only < 1 is checked)',
+        'whole-row-col': "a whole-column or whole-row reference (A:A, 1:3) is not handled by the translator: column-only corners panic on unwrap, row-only corners are not moved",
+    }
+    def __init__(self, tier):
+        self.tier = tier
+        self.names = [s.name for s in fskel.SKELETONS]
+        self.small = ([2, 12], [2, 5]) if tier == 'quick' else ([1, 30], [1, 12])
+        self.doc = 'Cell::set_coordinate moves a formula cell by (dc, dr): exactly the non-$ parts of every reference move, references leaving the grid become #REF!, nothing else changes'
+        self.bounds = {'skeletons': self.names, 'single_slot_domain': 'whole grid', 'multi_slot_domain': {'columns': self.small[0], 'rows': self.small[1]}, 'locks': 'slot 0: all four combinations, slot 1: none or both, further slots relative', 'move': 'every (dc, dr) keeping the cell inside the domain'}
+    def run(self, it, ctx, res):
+        k = ctx.sym_int('skel', 0, len(self.names) - 1)
+        k = next(i for i in range(len(self.names)) if ctx.branch(k == i))
+        sk = fskel.by_name(self.names[k])
+        nslots = len({s.idx for s in sk.slots()})
+        dom_c, dom_r = ([1, MAXC], [1, MAXR]) if nslots == 1 else self.small
+        f = fskel.Filled(ctx, sk, dom_c, dom_r)
+        cd_c, cd_r = (dom_c, dom_r) if nslots == 1 else ([2, 5], [2, 5])      # where the formula cell itself lives and moves to
+        c0 = ctx.sym_int('from_c', cd_c[0], cd_c[1]); r0 = ctx.sym_int('from_r', cd_r[0], cd_r[1])
+        c1 = ctx.sym_int('to_c', cd_c[0], cd_c[1]); r1 = ctx.sym_int('to_r', cd_r[0], cd_r[1])
+        dc, dr = c1 - c0, r1 - r0
+        text = f.text(ctx)
+        info = {'skeleton': sk.name}
+        newvals, dead, over = {}, set(), False
+        for t in f.tokens():
+            leaves = False
+            for sl in t:
+                c, r, lc, lr = f.vals[sl.idx]
+                nc = c if (c is None or lc) else c + dc; nr = r if (r is None or lr) else r + dr
+                newvals[sl.idx] = [nc, nr, lc, lr]
+                conds = []
+                if c is not None and not lc: conds += [nc < 1, nc > MAXC]
+                if r is not None and not lr: conds += [nr < 1, nr > MAXR]
+                if conds and ctx.branch(z3.Or(*conds)):
+                    leaves = True
+                    hi = [x for x in ([nc > MAXC] if c is not None and not lc else []) + ([nr > MAXR] if r is not None and not lr else [])]
+                    if hi and ctx.branch(z3.Or(*hi)): over = True
+            if leaves: dead.add(id(t))
+        partial = any(sl.kind != 'cell' for sl in sk.slots())
+        cls = [('whole-row-col', partial), ('beyond-grid-max', over)]
+        try:
+            cell = Box_(it.call('<structs::cell::Cell as std::default::Default>::default', []))
+            co = it.call(CELL + 'get_coordinate_mut', [Ref(cell)])
+            it.call('structs::coordinate::Coordinate::set_col_num', [co, c0]); it.call('structs::coordinate::Coordinate::set_row_num', [co, r0])
+            it.call(CELL + 'set_formula::<&str>', [Ref(cell), sref(SStr(text))])
+            it.call(CELL + 'set_coordinate::<(u32, u32)>', [Ref(cell), [c1, r1]])
+            out = deref_all(it.call(CELL + 'get_formula', [Ref(cell)]))
+        except Panic as e:
+            self.fail(ctx, res, 'no-panic', str(e), classes=cls, info=info); return
+        except Budget as e:
+            self.fail(ctx, res, 'terminates', str(e), classes=cls, info=info); return
+        variants = expected_pieces(ctx, f, newvals, dead)
+        self.oblige(ctx, res, 'translated-text', any_eq(out.chars, variants), classes=cls, info=dict(info, dead=len(dead)))
+    def case_of(self, v):
+        m = v['model']; sk = fskel.by_name(self.names[m['skel']])
+        text = fskel.concrete_text(sk, fskel.model_vals(sk, m))
+        c = {'skeleton': sk.name, 'formula': text, 'from': [m['from_c'], m['from_r']], 'to': [m['to_c'], m['to_r']]}
+        c['show'] = dict(c); return c
+    def confirm(self, case, profile):
+        (c0, r0), (c1, r1) = case['from'], case['to']
+        r = native.run_cases([['cell_translate', c0, r0, case['formula'], c1, r1]], profile)[0]
+        exp = ref_translate(case['formula'], c1 - c0, r1 - r0)
+        got = native.unhx(r[1][0]) if r[0] == 'ok' else None
+        return (r[0] != 'ok' or got not in exp), 'move %s from %s to %s -> %s %r expected %r' % (case['formula'], coord_str(c0, r0, 0, 0), coord_str(c1, r1, 0, 0), r[0], got if r[0] == 'ok' else r[1], exp[0])
+    def validate(self, it, seed):
+        cs = [(2, 2, 'SUM(A1:B2)+$C$3', 3, 4), (5, 5, "'My Sheet'!A1&\"A1\"", 4, 4), (1, 1, 'Other!B2*2', 1, 3), (3, 3, 'A1+B2', 1, 1), (2, 2, 'IF(C3>=1,"B2",#N/A)', 9, 9)]
+        nat = native.run_cases([['cell_translate'] + list(c) for c in cs]); mism = []
+        for c, n in zip(cs, nat):
+            def fn():
+                cell = Box_(it.call('<structs::cell::Cell as std::default::Default>::default', []))
+                co = it.call(CELL + 'get_coordinate_mut', [Ref(cell)])
+                it.call('structs::coordinate::Coordinate::set_col_num', [co, c[0]]); it.call('structs::coordinate::Coordinate::set_row_num', [co, c[1]])
+                it.call(CELL + 'set_formula::<&str>', [Ref(cell), sref(c[2])])
+                it.call(CELL + 'set_coordinate::<(u32, u32)>', [Ref(cell), [c[3], c[4]]])
+                return pstr(it.call(CELL + 'get_formula', [Ref(cell)]))
+            m = concrete(it, fn)
+            nn = ('ok', native.unhx(n[1][0])) if n[0] == 'ok' else (n[0], None)
+            if (m if m[0] == 'ok' else (m[0], None)) != nn: mism.append('cell_translate%r: mir %r native %r' % (c, m, n))
+        return len(cs), mism
+
+REF_RE = re.compile(r"(?P<q>(?:'(?:[^']|'')*'|[A-Za-z0-9_.]+)!)?(?P<a>\$?[A-Z]{1,3}\$?[0-9]+|\$?[A-Z]{1,3}(?=:)|\$?[0-9]+(?=:))(?::(?P<b>\$?[A-Z]{1,3}\$?[0-9]+|\$?[A-Z]{1,3}|\$?[0-9]+))?")
+def split_outside_strings(text):
+    """yield (segment, is_code): string literals and quoted names are not code"""
+    out, i = [], 0
+    for m in re.finditer(r'"(?:[^"]|"")*"', text):
+        out.append((text[i:m.start()], True)); out.append((m.group(0), False)); i = m.end()
+    out.append((text[i:], True))
+    return out
+def ref_translate(text, dc, dr):
+    """reference translation on concrete text -> list of acceptable outputs"""
+    def corner(t):
+        mm = re.fullmatch(r'(\$?)([A-Z]*)(\$?)(\d*)', t)
+        return [mm.group(1) == '$', index_of(mm.group(2)) if mm.group(2) else None, mm.group(3) == '$', int(mm.group(4)) if mm.group(4) else None]
+    def pr(x): return ('$' if x[0] else '') + (letters_of(x[1]) if x[1] else '') + ('$' if x[2] else '') + (str(x[3]) if x[3] else '')
+    outs = ['', '']
+    for seg, code in split_outside_strings(text):
+        if not code: outs = [o + seg for o in outs]; continue
+        pos = 0; a_ = ''; b_ = ''
+        for m in REF_RE.finditer(seg):
+            if m.start() > 0 and (seg[m.start() - 1].isalnum() or seg[m.start() - 1] in '_.'): continue
+            if m.end() < len(seg) and (seg[m.end()].isalnum() or seg[m.end()] in '_(.'): continue
+            a_ += seg[pos:m.start()]; b_ += seg[pos:m.start()]; pos = m.end()
+            cs = [corner(m.group('a'))] + ([corner(m.group('b'))] if m.group('b') else [])
+            dead = False
+            for x in cs:
+                if x[1] is not None and not x[0]:
+                    x[1] += dc; dead = dead or not 1 <= x[1] <= MAXC
+                if x[3] is not None and not x[2]:
+                    x[3] += dr; dead = dead or not 1 <= x[3] <= MAXR
+            if dead: a_ += (m.group('q') or '') + '#REF!'; b_ += '#REF!'
+            else:
+                t = (m.group('q') or '') + ':'.join(pr(x) for x in cs); a_ += t; b_ += t
+        a_ += seg[pos:]; b_ += seg[pos:]
+        outs = [outs[0] + a_, outs[1] + b_]
+    return outs
+
 def harnesses(tier):
-    return [LexIdentity(tier)]
+    return [LexIdentity(tier), Translate(tier)]
